@@ -103,6 +103,12 @@ class Model:
             return np.diag(vals)
         if isinstance(e,NumberOperator): return self.numop(e).astype(complex)
         if isinstance(e,(BosonOp,FermionOp,LadderOp,pauli.SigmaOpBase)): return self.gen(e).astype(complex)
+        if isinstance(e,sympy.Function) and len(e.args)==1 and e.has(NumberOperator):
+            # function of a number-conserving (Fock-diagonal) argument, e.g. Abs(N_l): applied to the diagonal
+            # (sympy itself regards Abs(operator) as a commutative scalar)
+            M=self.expr(e.args[0],subs)
+            assert np.allclose(M,np.diag(np.diag(M)))
+            return np.diag(np.array([complex(e.func(sympy.sympify(complex(x)))) for x in np.diag(M)],dtype=complex))
         if e.is_commutative:
             v=e.subs(subs or {})
             return complex(v)*np.eye(self.D)
